@@ -1,7 +1,7 @@
 """C06 — Munkres solver: correspondence with the literal Lean model + subset-DP oracle."""
 import copy, itertools
 from fractions import Fraction
-from common import frac_to_str
+from common import frac_to_str, with_alarm, Timeout
 
 ASSUMPTIONS = [
     'entries are exact (ints, Fractions, dyadic floats) in the model comparison; IEEE rounding of non-dyadic float costs is outside the theorem and only monitored against the DP oracle within 1e-9',
@@ -49,6 +49,8 @@ def nontrivial(m):
 def oracle(m, before, res):
     """the property itself on the implementation's output; returns None or a description"""
     r, c = len(before), len(before[0])
+    if isinstance(res, str):
+        return 'solver ' + res
     if m != before:
         return 'caller matrix modified'
     if len(res) != min(r, c):
@@ -69,7 +71,12 @@ def oracle(m, before, res):
 
 def solve_impl(solver, m):
     before = copy.deepcopy(m)
-    res = solver.compute(m)
+    try:
+        res = with_alarm(lambda: solver.compute(m), 20)
+    except Timeout:
+        return before, 'does not terminate (20 s)'
+    except Exception as e:
+        return before, 'raises %s: %s' % (type(e).__name__, e)
     return before, [list(p) for p in res]
 
 
@@ -100,7 +107,7 @@ def gen_random(rng, kind):
 
 def check_case(ctx, solver, m, kind, reused):
     before, res = solve_impl(solver, m)
-    bad = oracle(m, before, [tuple(p) for p in res])
+    bad = oracle(m, before, res if isinstance(res, str) else [tuple(p) for p in res])
     case = {'matrix': to_model(before), 'kind': kind, 'reused_solver': reused}
     ctx.case({'matrix': to_model(before), 'impl': res}, nontrivial_key=tuple(map(tuple, to_model(before))) if nontrivial(before) else None, kind=kind)
     if bad:
@@ -160,7 +167,7 @@ def run(ctx):
         r, c = ctx.rng.randint(1, 8), ctx.rng.randint(1, 8)
         m = [[ctx.rng.random() for _ in range(c)] for _ in range(r)]
         before, res = solve_impl(shared, m)
-        bad = oracle(m, before, [tuple(p) for p in res])
+        bad = oracle(m, before, res if isinstance(res, str) else [tuple(p) for p in res])
         ctx.contract_checks += 1
         if bad:
             ctx.violation(bad + ' (float matrix)', {'matrix': before, 'kind': 'float', 'float': True}, impl=res)
@@ -175,14 +182,14 @@ def search(ctx):
             for t in itertools.product(range(3), repeat=r * c):
                 m = [list(t[i * c:(i + 1) * c]) for i in range(r)]
                 before, res = solve_impl(solver, m)
-                bad = oracle(m, before, [tuple(p) for p in res])
+                bad = oracle(m, before, res if isinstance(res, str) else [tuple(p) for p in res])
                 if bad:
                     ctx.violation(bad, {'matrix': to_model(before), 'kind': 'search'}, impl=res)
                     return
     for k in range(20000):
         m = gen_random(ctx.rng, ['int', 'tie', 'grade', 'frac', 'small'][k % 5])
         before, res = solve_impl(solver, m)
-        bad = oracle(m, before, [tuple(p) for p in res])
+        bad = oracle(m, before, res if isinstance(res, str) else [tuple(p) for p in res])
         if bad:
             ctx.violation(bad, {'matrix': to_model(before), 'kind': 'search'}, impl=res)
             return
@@ -199,5 +206,5 @@ def replay(ctx, data):
     else:
         m = [[Fraction(x) for x in row] for row in case['matrix']]
     before, res = solve_impl(Munkres(), m)
-    bad = oracle(m, before, [tuple(p) for p in res])
+    bad = oracle(m, before, res if isinstance(res, str) else [tuple(p) for p in res])
     return {'holds': bad is None, 'impl': res, 'why': bad}
